@@ -292,6 +292,7 @@ def run(ctx, rep):
     c04_recursion.run_fmtself(ctx, rep)
     from rules import c04_magnitude
     c04_magnitude.run(ctx, rep)
+    c04_magnitude.run_errrun(ctx, rep)
     from rules import c04_backtrack
     c04_backtrack.run(ctx, rep)
 
